@@ -132,3 +132,13 @@ Theorem C16_invalid_bytes_rejected :
     flat_events r = evs /\ exists e, pr_end r = PRaise e.
 Proof. exact invalid_bytes_rejected_delimited. Qed.
 Print Assumptions C16_invalid_bytes_rejected.
+
+(* any number of frames *)
+Theorem C16_invalid_bytes_rejected_frames :
+  forall (f : frame) (rest : list frame) (i : nat) (c : vclass) (evs : list event) (grouped : bool),
+    f_rows f <> [] -> run_frames (f :: rest) = Invalid i c evs -> catalogued c = true ->
+    Forall wf_frame (f :: rest) -> Forall small (f :: rest) ->
+    let r := parse_stream Generic grouped false (write_delimited (f :: rest)) in
+    flat_events r = evs /\ exists e, pr_end r = PRaise e.
+Proof. exact invalid_bytes_rejected. Qed.
+Print Assumptions C16_invalid_bytes_rejected_frames.
